@@ -67,19 +67,19 @@ CHECKS = {
     ),
     "C20": dict(
         title="Epoch-keyed, per-owner and configuration stores return exactly what was put",
-        quick=dict(groups=[G("reputation", "^TestC20Reputation$", 100, 3), G("audit", "^TestC20Audit$", 60, 3), G("neofsid", "^TestC20NeoFSID$", 150, 2),
+        quick=dict(groups=[G("reputation", "^TestC20Reputation$", 100, 3), E("reputation-many", "^TestC20ReputationMany$", 3), G("audit", "^TestC20Audit$", 60, 3), G("neofsid", "^TestC20NeoFSID$", 150, 2),
                            G("config", "^TestC20Config$", 150, 3), G("estimations", "^TestC20Estimations$", 80, 5)]),
-        thorough=dict(groups=[G("reputation", "^TestC20Reputation$", 1500, 3), G("audit", "^TestC20Audit$", 1000, 3), G("neofsid", "^TestC20NeoFSID$", 2000, 2),
+        thorough=dict(groups=[G("reputation", "^TestC20Reputation$", 1500, 3), E("reputation-many", "^TestC20ReputationMany$", 3), G("audit", "^TestC20Audit$", 1000, 3), G("neofsid", "^TestC20NeoFSID$", 2000, 2),
                               G("config", "^TestC20Config$", 2000, 3), G("estimations", "^TestC20Estimations$", 1500, 5)]),
     ),
     "C18": dict(
         title="NNS accepts exactly well-formed names and record data",
         quick=dict(groups=[E("exhaustive", "^TestC18Exhaustive$", 4, env=dict(VERIF_C18_MAXLEN=4)), E("ipv4-product", "^TestC18IPv4Product$", 4),
                            E("ipv6-exhaustive", "^TestC18IPv6Exhaustive$", 4, env=dict(VERIF_C18_V6LEN=6)),
-                           G("structured", "^TestC18Structured$", 250, 4)]),
+                           G("structured", "^TestC18Structured$", 250, 4), E("deep-names", "^TestC18DeepNames$")]),
         thorough=dict(groups=[E("exhaustive", "^TestC18Exhaustive$", 16, env=dict(VERIF_C18_MAXLEN=6)), E("ipv4-product", "^TestC18IPv4Product$", 16),
                               E("ipv6-exhaustive", "^TestC18IPv6Exhaustive$", 16, env=dict(VERIF_C18_V6LEN=8)),
-                              G("structured", "^TestC18Structured$", 5000, 16)]),
+                              G("structured", "^TestC18Structured$", 5000, 16), E("deep-names", "^TestC18DeepNames$")]),
     ),
     "C10": dict(
         title="NNS ownership lifecycle and NEP-11 accounting stay consistent over time",
